@@ -24,6 +24,9 @@ VERIF = os.path.dirname(os.path.dirname(os.path.abspath(__file__)))
 REPO = os.environ.get("VERIF_REPO", "/repo")
 WORK = os.environ.get("VERIF_WORK", "/var/tmp/automerge-verif")
 HARNESS_DIR = os.path.join(VERIF, "harness")
+# where evidence / replay files go (overridden for runs against seeded mutants so /verif stays clean)
+EVIDENCE_DIR = os.environ.get("VERIF_EVIDENCE_DIR", os.path.join(VERIF, "evidence"))
+REPLAY_DIR = os.environ.get("VERIF_REPLAY_DIR", os.path.join(VERIF, "replays"))
 CRATE_DIR = {"automerge": "rust/automerge", "hexane": "rust/hexane"}
 MEM_LIMIT_KB = int(os.environ.get("VERIF_MEM_KB", str(14 * 1024 * 1024)))  # per process (RLIMIT_AS)
 
@@ -104,6 +107,70 @@ def run_kani(crate, harnesses, seed, timeout_s, jobs, tag, extra=None, harness_d
 
 
 UNWIND_RE = re.compile(r"unwinding assertion", re.I)
+
+
+# ---------------------------------------------------------------------------------------------
+# per-loop unwind bounds
+#
+# One global #[kani::unwind(n)] unrolls EVERY loop n times; a harness that needs 17 iterations for
+# tinyvec's 16-slot default loop or 33 for a 32-byte memcmp would pay that everywhere. A harness may
+# therefore register `unwindset=[(regex, bound), ...]`: the loop ids matching each regex (as listed
+# by `cbmc --show-loops` on the harness's goto binary, regenerated from the current source) get that
+# bound via `--cbmc-args --unwindset`, every other loop keeps the harness's global bound, and the
+# unwinding assertions stay on for all of them.
+
+def _goto_binary(crate, h):
+    """Newest goto binary (after goto-instrument) Kani wrote for this harness."""
+    fn = h["name"].rsplit("::", 1)[1]
+    suffix = "%d%s.out" % (len(fn), fn)
+    root = os.path.join(WORK, "target-" + crate, "kani")
+    best = None
+    for d, _, files in os.walk(root):
+        for f in files:
+            if f.endswith(suffix) and not f.endswith(".symtab.out"):
+                p = os.path.join(d, f)
+                if best is None or os.path.getmtime(p) > os.path.getmtime(best):
+                    best = p
+    return best
+
+
+def resolve_unwindset(crate, h, t_start):
+    p = _goto_binary(crate, h)
+    if p is None or os.path.getmtime(p) < t_start - 1:
+        return None, "no fresh goto binary for the harness (compile error?)"
+    out = subprocess.run(["cbmc", "--show-loops", p], stdout=subprocess.PIPE, stderr=subprocess.DEVNULL).stdout.decode(errors="replace")
+    loops = re.findall(r"^Loop (\S+):", out, re.M)
+    entries, missing = [], []
+    for pat, bound in h["unwindset"]:
+        ids = [l for l in loops if re.search(pat, l)]
+        if not ids:
+            missing.append(pat)
+        entries += ["%s:%d" % (l, bound) for l in ids]
+    return entries, ("no loop matches %s (harmless if the code no longer has that loop)" % missing if missing else "")
+
+
+def run_unwindset_harnesses(crate, hs, seed, timeout_s, jobs, tag):
+    """Pre-pass (1 s per harness: only to make Kani emit the goto binaries), then one cargo kani per
+    harness with its own --unwindset, run concurrently. Returns {name: (data, text)}."""
+    import concurrent.futures
+    t0 = time.time()
+    run_kani(crate, hs, seed, 1, jobs, tag + "-pre")
+    res = {}
+
+    def one(ih):
+        i, h = ih
+        entries, note = resolve_unwindset(crate, h, t0)
+        if entries is None:
+            return h["name"], (None, note)
+        extra = ["--cbmc-args", "--unwindset", ",".join(entries)] if entries else None
+        data, text, rc, wall, lp = run_kani(crate, [h], seed, timeout_s, 1, "%s-u%d" % (tag, i), extra=extra)
+        h["_unwindset_resolved"] = entries
+        return h["name"], (data, text)
+
+    with concurrent.futures.ThreadPoolExecutor(max_workers=max(1, jobs)) as ex:
+        for name, r in ex.map(one, list(enumerate(hs))):
+            res[name] = r
+    return res
 
 
 def classify(h, data, text):
@@ -232,18 +299,22 @@ def run_playback_tests(h, seed, tests, profiles=("dev", "release"), budget_s=900
     return results
 
 
-def concrete_playback(h, seed, timeout_s):
+def concrete_playback(h, seed, timeout_s, profiles=("dev", "release")):
     """Ask Kani for concrete tests for the failing checks of a harness, then execute them natively
     (dev semantics = what Kani models, and release semantics = what users run).
     Returns (reproduced: bool|None, test_sources|None, detail)."""
-    data, text, rc, wall, lp = run_kani(h["crate"], [h], seed, timeout_s, 1, "pb",
-                                        extra=["-Z", "concrete-playback", "--concrete-playback=print"])
+    extra = ["-Z", "concrete-playback", "--concrete-playback=print"]
+    if h.get("_unwindset_resolved"):
+        extra += ["--cbmc-args", "--unwindset", ",".join(h["_unwindset_resolved"])]
+    elif h.get("cbmc_args"):
+        extra += ["--cbmc-args"] + h["cbmc_args"]
+    data, text, rc, wall, lp = run_kani(h["crate"], [h], seed, timeout_s, 1, "pb", extra=extra)
     m = PLAYBACK_RE.findall(text)
     tests = [t for t in m if "kani_concrete_playback" in t and "Check for `cover`" not in t]
     if not tests:
         return None, None, "kani produced no concrete playback test for a failed check (log %s)" % lp
-    tests = tests[:4]
-    results = run_playback_tests(h, seed, tests)
+    tests = tests[:2]
+    results = run_playback_tests(h, seed, tests, profiles=profiles)
     repro = any(v[0] in ("panicked", "timeout", "aborted") for v in results.values())
     if all(v[0] == "error" for v in results.values()):
         return None, tests, "native replay did not build/run: %s" % list(results.values())[0][1]
@@ -310,7 +381,7 @@ def write_evidence(prop, tier, seed, recs, wall, violations, extra_assumptions=N
             "outside_claim": p.get("outside", []),
             "engine": "Kani 0.68.0 -> CBMC 6.11.0 -> CaDiCaL (encoding regenerated from /repo's working tree on this run)",
             "inconclusive": [r["harness"] for r in recs if r["status"] == "inconclusive"],
-            "counterexamples": [r["harness"] for r in recs if r["status"] == "counterexample"],
+            "counterexamples": [r["harness"] for r in recs if r["status"] in ("counterexample", "counterexample-not-replayed")],
         },
         "assumptions": sorted(set(assumptions)) + [
             "bounded: a pass holds for all inputs within each harness's stated bound (unwinding assertions on), nothing beyond",
@@ -319,8 +390,8 @@ def write_evidence(prop, tier, seed, recs, wall, violations, extra_assumptions=N
         "wall_s": round(wall, 2),
         "violations": int(violations),
     }
-    os.makedirs(os.path.join(VERIF, "evidence"), exist_ok=True)
-    with open(os.path.join(VERIF, "evidence", prop + ".json"), "w") as f:
+    os.makedirs(EVIDENCE_DIR, exist_ok=True)
+    with open(os.path.join(EVIDENCE_DIR, prop + ".json"), "w") as f:
         json.dump(ev, f, indent=1)
 
 
@@ -346,9 +417,27 @@ def check_property(prop, tier, seed, only=None, jobs=None):
     jobs = jobs or int(os.environ.get("VERIF_JOBS", "8"))
     # batch: one invocation per (crate, batch key); harnesses with their own cbmc args run alone
     batches = {}
+    uw = {}
     for h in hs:
+        if h.get("unwindset"):
+            uw.setdefault(h["crate"], []).append(h)
+            continue
         key = (h["crate"], h.get("batch", "") if not h.get("cbmc_args") else h["name"])
         batches.setdefault(key, []).append(h)
+    for crate, group in sorted(uw.items()):
+        to = max(h.get("timeout", registry.TIER_TIMEOUT[tier]) for h in group)
+        log("== kani %s: %d harness(es) with per-loop unwind bounds, timeout %ds each, %d at a time" % (crate, len(group), to, jobs))
+        res = run_unwindset_harnesses(crate, group, seed, to, jobs, "%s-%s" % (prop, tier))
+        for h in group:
+            data, text = res[h["name"]]
+            rec = classify(h, data, text if isinstance(text, str) else "")
+            if data is None and isinstance(text, str) and not rec["reason"].startswith("harness"):
+                rec["reason"] = (rec["reason"] + "; " + text[-300:]) if len(text) < 400 else rec["reason"]
+            rec["unwindset"] = h.get("_unwindset_resolved", [])
+            recs.append(rec)
+            log("   %-14s %s  checks=%d covers=%d/%d solver=%.1fs %s" % (
+                rec["status"].upper(), h["name"], rec["checks"], rec["covers_satisfied"], rec["covers"],
+                rec["solver_s"], rec["reason"]))
     for (crate, bkey), group in sorted(batches.items()):
         to = max(h.get("timeout", registry.TIER_TIMEOUT[tier]) for h in group)
         extra = None
@@ -368,7 +457,13 @@ def check_property(prop, tier, seed, only=None, jobs=None):
     # triage counterexamples
     violations = 0
     inconclusive = [r for r in recs if r["status"] == "inconclusive"]
-    for rec in recs:
+    # Replays are the slow part (a Kani re-run for the concrete values plus two native builds), so at
+    # most MAX_REPLAY counterexamples per run are replayed, cheapest first; the release-profile replay is
+    # done for the first reproduced one only. The rest are listed in the evidence as not replayed and do
+    # not get a VIOLATION line of their own (the run already exits 1).
+    max_replay = int(os.environ.get("VERIF_MAX_REPLAY", "2"))
+    reproduced = 0
+    for rec in sorted(recs, key=lambda r: r["solver_s"] + r["symex_s"]):
         if rec["status"] != "counterexample":
             continue
         h = [x for x in hs if x["name"] == rec["harness"]][0]
@@ -385,8 +480,13 @@ def check_property(prop, tier, seed, only=None, jobs=None):
             continue
         for fl in unknown:
             log("   counterexample in %s: %s [%s] at %s" % (rec["harness"], fl["description"], fl["function"], fl["location"]))
-        repro, test_src, detail = concrete_playback(h, seed, h.get("timeout", registry.TIER_TIMEOUT[tier]))
-        rdir = os.path.join(VERIF, "replays", prop)
+        if reproduced >= max_replay:
+            rec["status"] = "counterexample-not-replayed"
+            rec["reason"] = "replay cap reached (%d reproduced counterexamples already reported in this run)" % reproduced
+            continue
+        repro, test_src, detail = concrete_playback(h, seed, h.get("timeout", registry.TIER_TIMEOUT[tier]),
+                                                    profiles=("dev", "release") if reproduced == 0 else ("dev",))
+        rdir = os.path.join(REPLAY_DIR, prop)
         os.makedirs(rdir, exist_ok=True)
         rpath = os.path.join(rdir, rec["harness"].replace("::", "__") + ".json")
         with open(rpath, "w") as f:
@@ -397,6 +497,7 @@ def check_property(prop, tier, seed, only=None, jobs=None):
         rec["native_replay"] = detail if not isinstance(detail, str) else {"note": detail}
         if repro:
             violations += 1
+            reproduced += 1
             log("VIOLATION property=%s replay=%s" % (prop, rpath))
         else:
             rec["status"] = "inconclusive"
